@@ -147,7 +147,8 @@ LEVEL_TEXT = ("Kernel-checked for ALL retarget/tick histories of the contract-le
               "of other targets evaluate nobody, a tick - also the first ever - of a field of the current target "
               "evaluates every consumer with that field modified, a retarget samples every valid field; also below "
               "selection trees. The model is tied to the code by running the real "
-              "operators and consumers on generated histories.")
+              "operators and consumers on generated histories."
+              ' Structured targets (Props/C13Struct.lean, streams structured*; whole TSB / TSL node outputs behind a reference, flat or below a selection tree): in every reachable state field link (c,f) is subscribed to field f of the current target and to nothing else, every field read equals the field of the designated target after any retarget whether or not that field ever ticked (structured_fields_follow_target), ticks of unselected targets are silent, the first tick of a field reaches the consumer, a retarget samples every valid field.')
 LEVEL_NOTE = ("PARTIAL by design: the model is the linking contract (linking_strategies.rst 'Sampled rebinds' + the "
               "observable behaviour of the anchored files), not alternative.cpp's attachment bookkeeping; switch_, "
               "nested structures, per-field and empty references are outside the model and the generator. Trusted: Lean "
